@@ -7,6 +7,10 @@
 //! lib/eval_backend.py. std only.
 use std::io::{self, BufRead, Write};
 
+#[cfg(feature = "ri_private")]
+#[allow(dead_code, unused)]
+mod ri_private;
+
 fn unhex(s: &str) -> Vec<u8> {
     if s == "-" {
         return Vec::new();
@@ -76,6 +80,37 @@ fn main() {
         let line = line.expect("stdin");
         let f: Vec<&str> = line.split_whitespace().collect();
         if f.is_empty() {
+            continue;
+        }
+        if f[0] == "compress" {
+            // compress <cv 32 bytes hex> <block 64 bytes hex> <counter> <block_len> <flags>  (directed search only)
+            #[cfg(feature = "ri_private")]
+            {
+                let (cvb, blk) = (unhex(f[1]), unhex(f[2]));
+                let (counter, block_len, flags): (u64, u32, u32) = (f[3].parse().unwrap(), f[4].parse().unwrap(), f[5].parse().unwrap());
+                let r = std::panic::catch_unwind(move || {
+                    let mut cv = [0u32; 8];
+                    let mut bw = [0u32; 16];
+                    for i in 0..8 {
+                        cv[i] = u32::from_le_bytes([cvb[4 * i], cvb[4 * i + 1], cvb[4 * i + 2], cvb[4 * i + 3]]);
+                    }
+                    for i in 0..16 {
+                        bw[i] = u32::from_le_bytes([blk[4 * i], blk[4 * i + 1], blk[4 * i + 2], blk[4 * i + 3]]);
+                    }
+                    let out = ri_private::vf_compress(&cv, &bw, counter, block_len, flags);
+                    let mut bytes = Vec::new();
+                    for w in out.iter() {
+                        bytes.extend_from_slice(&w.to_le_bytes());
+                    }
+                    bytes
+                });
+                match r {
+                    Ok(out) => writeln!(w, "{}", hex(&out)).unwrap(),
+                    Err(_) => writeln!(w, "PANIC").unwrap(),
+                }
+            }
+            #[cfg(not(feature = "ri_private"))]
+            writeln!(w, "UNSUPPORTED").unwrap();
             continue;
         }
         assert!(f.len() == 6 || f.len() == 7, "bad request line");
